@@ -119,6 +119,9 @@ func (f *Frame) execInstr(cur *blockCur, in ssa.Instruction) {
 		for i := len(f.defers) - 1; i >= 0; i-- {
 			d := f.defers[i]
 			if !d.block.Dominates(cur.b) {
+				if !blockReaches(d.block, cur.b) {
+					continue // this defer statement cannot have run on any path to here
+				}
 				f.unsupported("conditional defer (block %d does not dominate %d)", d.block.Index, cur.b.Index)
 			}
 			f.execCall(cur, d.instr, d.call, nil)
@@ -686,7 +689,29 @@ func (f *Frame) execReturn(cur *blockCur, x *ssa.Return) {
 				Src: "returns normally only if not (" + cl.Text + ")"})
 		}
 		for _, cl := range f.con.Ensures {
-			t := f.evalClauseAt(cl, cur.b, cur.st, vs)
+			var t string
+			if strings.Contains(cl.Label, "where-defined") {
+				// a clause about local variables: it applies to the returns at which those locals exist
+				skipped := false
+				func() {
+					defer func() {
+						if r := recover(); r != nil {
+							if u, ok := r.(unsupportedErr); ok && strings.Contains(u.msg, "unknown identifier") {
+								skipped = true
+								return
+							}
+							panic(r)
+						}
+					}()
+					t = f.evalClauseAt(cl, cur.b, cur.st, vs)
+				}()
+				if skipped {
+					f.c.note("clause %s does not apply at an early return (its locals are not defined yet)", clauseLabel(cl))
+					continue
+				}
+			} else {
+				t = f.evalClauseAt(cl, cur.b, cur.st, vs)
+			}
 			f.c.addObligation(&Obligation{Name: f.oblName("ensures", clauseLabel(cl)), Class: "ensures", Props: f.clauseProps(cl), Guard: cur.reach, Goal: t, Src: cl.Text})
 		}
 	}
